@@ -267,31 +267,39 @@ def isConstructor (fields : List T) : Bool := fnTy fields = some .FunctionTy_Con
 
 def contracts (su : T) : List T := extract [.ContractDefinition] su
 
-/-- variables assigned (plain `=`, value-typed right-hand side) inside a constructor: name ↦ type loc -/
-def assignedInConstructor (su : T) (table : List (String × List T × T)) : List (String × T) :=
-  let assigns : List T := (contracts su).flatMap fun c =>
+/-- a plain assignment of a value-typed right-hand side to a state variable of the table: (name, type loc) -/
+def ctorAssignEntry (table : List (String × List T × T)) : T → Option (String × T)
+  | .node .Expression_Assign [_, lhs, rhs] =>
+    if isNonValueType rhs then none
+    else
+      match varName lhs with
+      | some v =>
+        match assocGet table v with
+        | some (_, loc) => some (v, loc)
+        | none => none
+      | none => none
+  | _ => none
+
+/-- the plain assignments found in the constructors of the contracts of the file, in walker order -/
+def constructorAssigns (su : T) : List T :=
+  (contracts su).flatMap fun c =>
     (contractFunctions c).flatMap fun (part, fields) =>
       if isConstructor fields then extract [.Assign] part else []
-  assigns.foldl (fun acc n =>
-    match n with
-    | .node .Expression_Assign [_, lhs, rhs] =>
-      if isNonValueType rhs then acc
-      else
-        match varName lhs with
-        | some v =>
-          match assocGet table v with
-          | some (_, loc) => assocInsert acc v loc
-          | none => acc
-        | none => acc
-    | _ => acc) []
+
+/-- variables assigned (plain `=`, value-typed right-hand side) inside a constructor: name ↦ type loc -/
+def assignedInConstructor (su : T) (table : List (String × List T × T)) : List (String × T) :=
+  ((constructorAssigns su).filterMap (ctorAssignEntry table)).foldl (fun acc e => assocInsert acc e.1 e.2) []
+
+/-- names written directly in the non-constructor functions of the contracts of the file -/
+def writtenOutsideConstructors (su : T) : List String :=
+  (contracts su).flatMap fun c =>
+    (contractFunctions c).flatMap fun (part, fields) =>
+      if isConstructor fields then [] else writtenNames part
 
 def immutableVariables (su : T) : List Loc :=
   let table := storageVarTable true true su
   let potential := assignedInConstructor su table
-  let written : List String := (contracts su).flatMap fun c =>
-    (contractFunctions c).flatMap fun (part, fields) =>
-      if isConstructor fields then [] else writtenNames part
-  (written.foldl assocRemove potential).filterMap (fun e => Loc.ofT e.2)
+  ((writtenOutsideConstructors su).foldl assocRemove potential).filterMap (fun e => Loc.ofT e.2)
 
 def assignTargets : List Target :=
   [.Assign, .AssignAdd, .AssignAnd, .AssignDivide, .AssignModulo, .AssignMultiply, .AssignOr, .AssignShiftLeft,
@@ -326,6 +334,9 @@ def memoryArgs (fields : List T) : List (String × T) :=
       | none => acc
     | _ => acc) []
 
+/-- parameters (or anything else) assigned below `body`, directly or through subscripts -/
+def assignedBases (body : T) : List String := (extract assignTargets body).filterMap assignedBase
+
 def functionDefinitionFields : T → Option (List T)
   | .node .ContractPart_FunctionDefinition [.node .S_FunctionDefinition fields] => some fields
   | .node .SourceUnitPart_FunctionDefinition [.node .S_FunctionDefinition fields] => some fields
@@ -339,8 +350,7 @@ def memoryToCalldata (su : T) : List Loc :=
       else
         match fnBody fields with
         | some body =>
-          let assigned := (extract assignTargets body).filterMap assignedBase
-          (assigned.foldl assocRemove (memoryArgs fields)).filterMap (fun e => Loc.ofT e.2)
+          ((assignedBases body).foldl assocRemove (memoryArgs fields)).filterMap (fun e => Loc.ofT e.2)
         | none => []
     | none => []
 
